@@ -265,7 +265,43 @@ func runC44(c *Ctx) {
 	// advanced together only when they stand on the same path: in DiffTreeContext a nextBoth() is reachable only across
 	// the fact `from.Compare(to) == 0`, and the same-name handler is entered from the switch on that comparison only
 	// (default / 0 clause). Matching by base name lets a skipped entry a/z swallow an unrelated top-level z.
-	const r3 = "both-advance-only-on-equal-paths"
+	checkBothAdvanceOnEqualPaths(c, "both-advance-only-on-equal-paths")
+	c.Floor("both-advance-only-on-equal-paths", 3)
+
+	const r2 = "result-is-union"
+	if det := c.MustFunc(r2, objShort+".(*renameDetector).detect"); det != nil {
+		c.Analysed(det)
+		var ret types.Object
+		ast.Inspect(det.Decl.Body, func(n ast.Node) bool {
+			if r, ok := n.(*ast.ReturnStmt); ok && len(r.Results) == 2 {
+				if o := objOf(info, r.Results[0]); o != nil {
+					ret = o
+				}
+			}
+			return true
+		})
+		for _, fld := range []string{"added", "deleted", "modified"} {
+			fv := fieldOf(rdT, fld)
+			ok := false
+			ast.Inspect(det.Decl.Body, func(n ast.Node) bool {
+				as, isAs := n.(*ast.AssignStmt)
+				if !isAs || len(as.Lhs) != 1 || ret == nil || objOf(info, as.Lhs[0]) != ret || len(as.Rhs) != 1 {
+					return true
+				}
+				if call, isCall := unparen(as.Rhs[0]).(*ast.CallExpr); isCall && nodeHasBuiltin(info, call, "append") && fv != nil && usesObj(info, call, fv) {
+					ok = true
+				}
+				return true
+			})
+			c.Check(ok, r2, det.Name()+":"+fld, det.Decl.Pos(), orStr(ifStr(!ok, "the list detect returns is not extended with d."+fld+": those changes are lost"), "d."+fld+" is appended to the result"))
+		}
+	}
+	c.Floor(r2, 3)
+}
+
+// checkBothAdvanceOnEqualPaths is shared by C44 (tree diffs) and C27 (status is a diff of index and worktree).
+func checkBothAdvanceOnEqualPaths(c *Ctx, r3 string) {
+	p := c.P
 	if mpk := p.Pkg("utils/merkletrie"); mpk == nil {
 		c.Unresolved(r3, "package utils/merkletrie", 0, "not loaded")
 	} else {
@@ -335,35 +371,4 @@ func runC44(c *Ctx) {
 			}
 		}
 	}
-	c.Floor(r3, 3)
-
-	const r2 = "result-is-union"
-	if det := c.MustFunc(r2, objShort+".(*renameDetector).detect"); det != nil {
-		c.Analysed(det)
-		var ret types.Object
-		ast.Inspect(det.Decl.Body, func(n ast.Node) bool {
-			if r, ok := n.(*ast.ReturnStmt); ok && len(r.Results) == 2 {
-				if o := objOf(info, r.Results[0]); o != nil {
-					ret = o
-				}
-			}
-			return true
-		})
-		for _, fld := range []string{"added", "deleted", "modified"} {
-			fv := fieldOf(rdT, fld)
-			ok := false
-			ast.Inspect(det.Decl.Body, func(n ast.Node) bool {
-				as, isAs := n.(*ast.AssignStmt)
-				if !isAs || len(as.Lhs) != 1 || ret == nil || objOf(info, as.Lhs[0]) != ret || len(as.Rhs) != 1 {
-					return true
-				}
-				if call, isCall := unparen(as.Rhs[0]).(*ast.CallExpr); isCall && nodeHasBuiltin(info, call, "append") && fv != nil && usesObj(info, call, fv) {
-					ok = true
-				}
-				return true
-			})
-			c.Check(ok, r2, det.Name()+":"+fld, det.Decl.Pos(), orStr(ifStr(!ok, "the list detect returns is not extended with d."+fld+": those changes are lost"), "d."+fld+" is appended to the result"))
-		}
-	}
-	c.Floor(r2, 3)
 }
